@@ -1,5 +1,6 @@
 (* Proofs about Model/ClientShutdown.v (C09). *)
-From JV Require Import Base.Bytes Base.Dec Model.Wire Model.ClientMgr Model.ClientShutdown.
+From JV Require Import Base.Bytes Base.Dec Base.Utf8 Json.Json Json.JsonSer Json.JsonParse Json.JsonWf Model.Wire Model.ClientMgr Model.ClientShutdown.
+From JV Require Import Proofs.JsonFacts.
 Arguments N.add : simpl never.
 Arguments N.sub : simpl never.
 Arguments N.mul : simpl never.
@@ -52,44 +53,12 @@ Definition sp_reported (x : spc) : Prop :=
 Definition rp_reported (x : rpc) : Prop := match x with RExiting | RExited => True | _ => False end.
 Definition wp_after (x : wpc) : Prop := match x with WStored | WExited => True | _ => False end.
 
-(* the shutdown was not caused by an error: the client was dropped, or the (dead) clean-exit branch ran *)
-Definition clean (s : state) : Prop := dropped s = true \/ h_recvend s = true.
-
-Record inv (s : state) : Prop := {
-  i_new : sp_new (sp s);
-  i_front : front_closed s = true <-> sp_closing (sp s);
-  i_sclosed : sp_sawclosed (sp s) -> rx_closed s = true;
-  i_rx : rx_closed s = true <-> wp s = WExited;
-  i_after : wp_after (wp s) -> reason s <> None \/ clean s;
-  i_got : wp s = WGot None -> clean s;
-  i_slot : slot s = Some None -> clean s;
-  i_srep : sp s = SReport None -> rx_closed s = true \/ dropped s = true;
-  i_rrep : rp s = RReport None -> rx_closed s = true \/ h_recvend s = true;
-  i_reason : forall c, reason s = Some c -> wp_after (wp s) /\ h_first s = Some (Some c);
-  i_wait : wp s = WWait -> (slot s = None /\ h_first s = None) \/ (exists r, slot s = Some r /\ h_first s = Some r);
-  i_gotf : forall r, wp s = WGot r -> h_first s = Some r;
-  i_past : wp s = WWait -> sp_reported (sp s) \/ rp_reported (rp s) -> slot s <> None;
-  i_cause : forall h c, get_c s h = Some (CDone (OCause c)) -> reason s = Some c;
-  i_ph : forall h, get_c s h = Some (CDone OPlaceholder) -> h_recvend s = true;
-  i_drop : dropped s = true -> forall h c, get_c s h = Some c -> is_done c = true
-}.
-
-Lemma inv_init : inv init.
-Proof.
-  constructor; cbn; try tauto; try discriminate; try (intros; discriminate).
-  - split; [discriminate | tauto].
-  - split; discriminate.
-Qed.
-
 Ltac bool_norm :=
   repeat match goal with
   | H : _ && _ = true |- _ => apply andb_prop in H; destruct H
   | H : negb _ = true |- _ => apply negb_true_iff in H
   | H : _ || _ = true |- _ => apply orb_prop in H
   end.
-
-Ltac fin := cbn in *; try tauto; try congruence; try discriminate;
-  try solve [intuition (try congruence; try discriminate; eauto)].
 
 (* push, destructed *)
 Lemma push_cases s r :
@@ -121,3 +90,627 @@ Lemma pop_ctl s :
 Proof.
   unfold pop_to_mgr. destruct (fqueue s); [tauto|]. destruct (is_queued _); cbn; tauto.
 Qed.
+
+(* ---------- the control invariant ---------- *)
+Record cinv (s : state) : Prop := {
+  c_new : sp_new (sp s);
+  c_front : front_closed s = true <-> sp_closing (sp s);
+  c_sclosed : sp_sawclosed (sp s) -> rx_closed s = true;
+  c_rx : rx_closed s = true <-> wp s = WExited;
+  c_after : wp_after (wp s) -> reason s <> None \/ dropped s = true \/ h_recvend s = true;
+  c_got : wp s = WGot None -> dropped s = true \/ h_recvend s = true;
+  c_slot : slot s = Some None -> dropped s = true \/ h_recvend s = true;
+  c_srep : sp s = SReport None -> rx_closed s = true \/ dropped s = true;
+  c_rrep : rp s = RReport None -> rx_closed s = true \/ h_recvend s = true;
+  c_reason : forall c, reason s = Some c -> wp_after (wp s) /\ h_first s = Some (Some c);
+  c_wait : wp s = WWait -> (slot s = None /\ h_first s = None) \/ (exists r, slot s = Some r /\ h_first s = Some r);
+  c_gotf : forall r, wp s = WGot r -> h_first s = Some r;
+  c_past : wp s = WWait -> sp_reported (sp s) \/ rp_reported (rp s) -> slot s <> None
+}.
+
+Definition same_ctl (s s' : state) : Prop :=
+  sp s' = sp s /\ rp s' = rp s /\ wp s' = wp s /\ slot s' = slot s /\ rx_closed s' = rx_closed s /\
+  reason s' = reason s /\ front_closed s' = front_closed s /\ dropped s' = dropped s /\
+  h_recvend s' = h_recvend s /\ h_first s' = h_first s.
+
+Lemma cinv_ext s s' : same_ctl s s' -> cinv s -> cinv s'.
+Proof.
+  intros (P1&P2&P3&P4&P5&P6&P7&P8&P9&P10) [].
+  constructor; rewrite ?P1, ?P2, ?P3, ?P4, ?P5, ?P6, ?P7, ?P8, ?P9, ?P10; assumption.
+Qed.
+
+Ltac crunch :=
+  repeat match goal with
+  | H : _ /\ _ |- _ => destruct H
+  | H : exists _, _ |- _ => destruct H
+  | H : Some _ = Some _ |- _ => inversion H; clear H; subst
+  end; subst; cbn in *;
+  try tauto; try congruence.
+
+
+Ltac enab E :=
+  unfold enabled, sp_is_loop, rp_is_loop, sp_exited, rp_exited, can_push, is_none in E; bool_norm;
+  repeat match goal with
+  | H : match ?x with _ => _ end = true |- _ => let Q := fresh "Q" in destruct x eqn:Q; try discriminate H
+  end.
+
+Ltac fin1 := try (intros; discriminate); try tauto; try congruence;
+  try solve [intros; repeat match goal with H : Some _ = Some _ |- _ => inversion H; clear H; subst
+                            | H : SReport _ = SReport _ |- _ => inversion H; clear H; subst
+                            | H : RReport _ = RReport _ |- _ => inversion H; clear H; subst
+                            | H : WGot _ = WGot _ |- _ => inversion H; clear H; subst end;
+             repeat match goal with
+                    | H : ?a = ?a -> _ |- _ => specialize (H eq_refl)
+                    | I : forall c, reason ?s = Some c -> _, H : reason ?s = Some _ |- _ => specialize (I _ H)
+                    | I : forall r, ?w = WGot r -> _ |- _ => first [specialize (I _ eq_refl) | clear I]
+                    end;
+             repeat match goal with H : _ /\ _ |- _ => destruct H | H : exists _, _ |- _ => destruct H
+                                    | H : _ \/ _ |- _ => destruct H end; try discriminate; try congruence;
+             intuition (try congruence; try discriminate; eauto)].
+Ltac rwq := repeat match goal with
+  | Q : sp _ = _ |- _ => rewrite Q in *; clear Q
+  | Q : rp _ = _ |- _ => rewrite Q in *; clear Q
+  | Q : wp _ = _ |- _ => rewrite Q in *; clear Q
+  | Q : slot _ = _ |- _ => rewrite Q in *; clear Q
+  | Q : rx_closed _ = _ |- _ => rewrite Q in *; clear Q
+  | Q : dropped _ = _ |- _ => rewrite Q in *; clear Q
+  end; cbn in *.
+Ltac fld0 := constructor; cbn -[push]; try assumption.
+
+Lemma cinv_step s l : cinv s -> cinv (step false s l).
+Proof.
+  intro I. unfold step. destruct (enabled false s l) eqn:E; [|exact I].
+  destruct l; cbn [effect after_break];
+  try (apply (cinv_ext s); [|exact I]; first [apply pop_ctl | repeat split; try reflexivity;
+        match goal with |- context [if ?b then _ else _] => destruct b; reflexivity end]).
+  all: enab E; destruct I as [I1 I2 I3 I4 I5 I6 I7 I8 I9 I10 I11 I12 I13].
+  all: try solve [rwq; contradiction].
+  all: try solve [fld0; rwq; fin1].
+  all: try (destruct (pop_ctl s) as (P1&P2&P3&P4&P5&P6&P7&P8&P9&P10);
+    solve [fld0; rewrite ?P1, ?P2, ?P3, ?P4, ?P5, ?P6, ?P7, ?P8, ?P9, ?P10; try assumption; rwq; fin1]).
+  all: try (destruct (push_cases s r) as [[X ->]|[X ->]]; [solve [fld0; rwq; fin1]|];
+    rewrite X in E; cbn in E; rewrite orb_false_r in E;
+    destruct (slot s) eqn:QS; try discriminate E; destruct (h_first s) eqn:QF; destruct (wp s) eqn:QW;
+    solve [fld0; rewrite ?QS, ?QF, ?QW in *; rwq; fin1]).
+  - destruct r; fld0; rwq; fin1.
+  - apply (cinv_ext s); [destruct (front_closed s); repeat split; reflexivity | constructor; assumption].
+Qed.
+
+(* ---------- what callers have observed ---------- *)
+Record kinv (s : state) : Prop := {
+  k_cause : forall h c, get_c s h = Some (CDone (OCause c)) -> reason s = Some c;
+  k_ph : forall h, get_c s h = Some (CDone OPlaceholder) -> h_recvend s = true;
+  k_drop : dropped s = true -> forall h c, get_c s h = Some c -> is_done c = true;
+  k_gone : forall h, get_c s h = Some CGone -> dropped s = true
+}.
+
+Lemma kinv_ext s s' : callers s' = callers s -> reason s' = reason s -> dropped s' = dropped s ->
+  (h_recvend s = true -> h_recvend s' = true) -> kinv s -> kinv s'.
+Proof.
+  intros C R D E [K1 K2 K3 K4]. unfold get_c in *. constructor; unfold get_c; rewrite ?C, ?R, ?D; eauto.
+Qed.
+
+Lemma kinv_setc s h x : kinv s ->
+  (forall c, x = CDone (OCause c) -> reason s = Some c) ->
+  (x = CDone OPlaceholder -> h_recvend s = true) ->
+  (dropped s = true -> is_done x = true) -> x <> CGone -> kinv (set_c s h x).
+Proof.
+  intros [K1 K2 K3 K4] A B C NG. constructor; cbn [reason h_recvend dropped set_c set_callers].
+  - intros k c. rewrite get_set. destruct (N.eqb k h); [intro H; inversion H; auto | apply K1].
+  - intros k. rewrite get_set. destruct (N.eqb k h); [intro H; inversion H; auto | apply K2].
+  - intros D k c. rewrite get_set. destruct (N.eqb k h); [intro H; inversion H; subst; auto | apply K3; exact D].
+  - intros k. rewrite get_set. destruct (N.eqb k h); [intro H; inversion H; congruence | apply K4].
+Qed.
+
+Lemma kinv_pop s : kinv s -> kinv (pop_to_mgr s).
+Proof.
+  intros [K1 K2 K3 K4]. destruct (pop_ctl s) as (P1&P2&P3&P4&P5&P6&P7&P8&P9&P10).
+  constructor; rewrite ?P6, ?P8, ?P9.
+  - intros h c H. apply get_c_pop in H as [H|[H _]]; [eauto | discriminate].
+  - intros h H. apply get_c_pop in H as [H|[H _]]; [eauto | discriminate].
+  - intros D h c H. apply get_c_pop in H as [H|[-> H]]; [eauto|]. apply (K3 D) in H. discriminate.
+  - intros h H. apply get_c_pop in H as [H|[H _]]; [eauto | discriminate].
+Qed.
+
+Lemma kinv_step s l : cinv s -> kinv s -> kinv (step false s l).
+Proof.
+  intros I K. unfold step. destruct (enabled false s l) eqn:E; [|exact K].
+  destruct l; cbn [effect after_break];
+  try solve [apply (kinv_ext s); [reflexivity..|tauto|exact K]].
+  - apply kinv_pop; exact K.
+  - apply (kinv_ext (pop_to_mgr s)); [reflexivity..|tauto|apply kinv_pop; exact K].
+  - destruct (sp s); try exact K; unfold push; destruct (rx_closed s);
+      (eapply (kinv_ext s); [reflexivity..|cbn; tauto|exact K]).
+  - destruct (sp s); (eapply (kinv_ext s); [reflexivity..|cbn; tauto|exact K]).
+  - destruct (sp s); (eapply (kinv_ext s); [reflexivity..|cbn; tauto|exact K]).
+  - apply kinv_setc; [exact K|discriminate|discriminate|reflexivity|discriminate].
+  - destruct (rp s); try exact K; unfold push; destruct (rx_closed s);
+      (eapply (kinv_ext s); [reflexivity..|cbn; tauto|exact K]).
+  - destruct (slot s); try exact K. eapply (kinv_ext s); [reflexivity..|cbn; tauto|exact K].
+  - cbn in E. destruct (wp s) as [|[c|]| |] eqn:W; try discriminate E;
+      try (eapply (kinv_ext s); [reflexivity..|cbn; tauto|exact K]).
+    destruct K as [K1 K2 K3 K4]. constructor; cbn [reason h_recvend dropped set_wp set_reason]; auto.
+    intros h c' H. apply K1 in H. destruct (c_reason s I _ H) as [A _]. rewrite W in A. contradiction.
+  - destruct K as [K1 K2 K3 K4].
+    assert (G : forall h x, get_c (set_dropped (set_callers s (map (fun hc : handle * cpc =>
+                   (fst hc, if is_done (snd hc) then snd hc else CGone)) (callers s)))) h = Some x ->
+                 is_done x = true /\ (x <> CGone -> get_c s h = Some x)).
+    { intros h x. unfold get_c. cbn [callers set_dropped set_callers].
+      rewrite (alookup_map_val (fun c => if is_done c then c else CGone)).
+      destruct (alookup N.eqb h (callers s)) as [c|]; cbn; [|discriminate].
+      destruct (is_done c) eqn:D; intro H; inversion H; subst; split; auto; congruence. }
+    constructor; cbn [reason h_recvend dropped set_dropped set_callers].
+    + intros h c H. apply G in H as [_ H]. apply (K1 h). apply H. discriminate.
+    + intros h H. apply G in H as [_ H]. apply (K2 h). apply H. discriminate.
+    + intros _ h c H. apply G in H as [H _]. exact H.
+    + reflexivity.
+  - cbn in E. apply andb_prop in E as [E _]. apply negb_true_iff in E.
+    destruct (front_closed s).
+    + apply kinv_setc; [exact K|discriminate|discriminate|congruence|discriminate].
+    + apply kinv_setc; [|discriminate|discriminate|cbn; congruence|discriminate].
+      eapply (kinv_ext s); [reflexivity..|cbn; tauto|exact K].
+  - cbn in E. apply andb_prop in E as [E _]. apply negb_true_iff in E.
+    apply kinv_setc; [exact K|discriminate|discriminate|congruence|discriminate].
+  - apply kinv_setc; [exact K|discriminate|discriminate| |discriminate].
+    intro D. cbn in E. destruct (get_c s h) as [c|] eqn:G; [|discriminate].
+    pose proof (k_drop _ K D _ _ G). destruct c; discriminate.
+  - cbn in E. apply andb_prop in E as [E F]. destruct (get_c s h) as [[]|] eqn:G; try discriminate E.
+    apply kinv_setc; [exact K| | |reflexivity|discriminate].
+    + intros c H. destruct (reason s); inversion H. reflexivity.
+    + intro H. destruct (reason s) eqn:R; [discriminate|].
+      destruct I as [I1 I2 I3 I4 I5 I6 I7 I8 I9 I10 I11 I12 I13]. apply I2 in F.
+      assert (X : sp_sawclosed (sp s)) by (destruct (sp s); cbn in *; tauto).
+      apply I3 in X. apply I4 in X. rewrite X in I5. destruct (I5 Logic.I) as [A|[A|A]].
+      * congruence.
+      * pose proof (k_drop _ K A _ _ G). discriminate.
+      * exact A.
+Qed.
+
+(* ---------- reachability ---------- *)
+Lemma cinv_init : cinv init.
+Proof.
+  constructor; cbn; try tauto; try discriminate; try (intros; discriminate).
+  - split; [discriminate | tauto].
+  - split; discriminate.
+Qed.
+
+Lemma kinv_init : kinv init.
+Proof. constructor; cbn; intros; discriminate. Qed.
+
+Lemma inv_run s tr : cinv s -> kinv s -> cinv (run false s tr) /\ kinv (run false s tr).
+Proof.
+  revert s. induction tr as [|l tr IH]; intros s C K; [split; assumption|].
+  cbn. apply IH; [apply cinv_step; exact C | apply kinv_step; assumption].
+Qed.
+
+Lemma reach_inv tr : cinv (run false init tr) /\ kinv (run false init tr).
+Proof. apply inv_run; [exact cinv_init | exact kinv_init]. Qed.
+
+Lemma run_app old s a b : run old s (a ++ b) = run old (run old s a) b.
+Proof. unfold run. apply fold_left_app. Qed.
+
+(* ---------- C09_cause_before_close ---------- *)
+Lemma closed_has_cause s : cinv s -> front_closed s = true ->
+  reason s <> None \/ dropped s = true \/ h_recvend s = true.
+Proof.
+  intros [I1 I2 I3 I4 I5 I6 I7 I8 I9 I10 I11 I12 I13] F. apply I2 in F.
+  assert (X : sp_sawclosed (sp s)) by (destruct (sp s); cbn in *; tauto).
+  apply I3 in X. apply I4 in X. rewrite X in I5. exact (I5 Logic.I).
+Qed.
+
+Theorem cause_before_close : forall tr, let s := run false init tr in
+  front_closed s = true -> (exists c, reason s = Some c) \/ dropped s = true \/ h_recvend s = true.
+Proof.
+  intros tr s F. destruct (closed_has_cause s (proj1 (reach_inv tr)) F) as [A|A]; [|right; exact A].
+  left. destruct (reason s) as [c|]; [exists c; reflexivity | congruence].
+Qed.
+
+(* which exits record a cause: whatever the watcher receives first *)
+Theorem reason_is_first_report : forall tr c, let s := run false init tr in
+  reason s = Some c -> h_first s = Some (Some c).
+Proof. intros tr c s R. exact (proj2 (c_reason s (proj1 (reach_inv tr)) c R)). Qed.
+
+(* ---------- C09_no_placeholder ---------- *)
+Theorem no_placeholder : forall tr h, let s := run false init tr in
+  h_recvend s = false -> get_c s h <> Some (CDone OPlaceholder).
+Proof.
+  intros tr h s R G. pose proof (k_ph s (proj2 (reach_inv tr)) h G). congruence.
+Qed.
+
+Theorem observed_cause_is_reason : forall tr h c, let s := run false init tr in
+  get_c s h = Some (CDone (OCause c)) -> reason s = Some c /\ h_first s = Some (Some c).
+Proof.
+  intros tr h c s G. pose proof (k_cause s (proj2 (reach_inv tr)) h c G) as R.
+  split; [exact R | exact (proj2 (c_reason s (proj1 (reach_inv tr)) c R))].
+Qed.
+
+(* ---------- C09_all_pending_fail_with_cause ---------- *)
+Definition is_pending (c : cpc) : bool := match c with CQueued | CInMgr | CReadErr => true | _ => false end.
+
+Lemma step_readerr s h c : get_c s h = Some CReadErr -> front_closed s = true -> reason s = Some c ->
+  get_c (step false s (LReadErr h)) h = Some (CDone (OCause c)).
+Proof.
+  intros G F R. unfold step. cbn [enabled]. rewrite G, F. cbn [is_readerr andb effect]. rewrite R. apply get_set_same.
+Qed.
+
+Lemma finish_pending s h c x : sp s = SExited -> rp s = RExited -> front_closed s = true -> reason s = Some c ->
+  get_c s h = Some x -> is_pending x = true ->
+  get_c (run false s [LCallerDropped h; LReadErr h]) h = Some (CDone (OCause c)).
+Proof.
+  intros S R F Rs G P. cbn. unfold step at 2. unfold enabled, sp_exited, rp_exited. rewrite G, S, R.
+  destruct x; try discriminate P; cbn [andb].
+  - cbn [effect]. apply step_readerr; [apply get_set_same | exact F | exact Rs].
+  - cbn [effect]. apply step_readerr; [apply get_set_same | exact F | exact Rs].
+  - apply step_readerr; assumption.
+Qed.
+
+Lemma finish_new s h c (l : label) : (l = LNewCall h \/ l = LOnDisc h) ->
+  dropped s = false -> front_closed s = true -> reason s = Some c -> get_c s h = None ->
+  get_c (run false s [l; LReadErr h]) h = Some (CDone (OCause c)).
+Proof.
+  intros L D F Rs G. cbn. unfold step at 2.
+  assert (E : enabled false s l = true) by (destruct L; subst l; cbn; rewrite D, G; reflexivity).
+  rewrite E.
+  assert (X : effect false s l = set_c s h CReadErr) by (destruct L; subst l; cbn; rewrite ?F; reflexivity).
+  rewrite X. apply step_readerr; [apply get_set_same | exact F | exact Rs].
+Qed.
+
+Theorem all_pending_fail_with_cause : forall tr, let s := run false init tr in
+  sp s = SExited -> rp s = RExited -> dropped s = false -> h_recvend s = false ->
+  exists c, reason s = Some c /\ h_first s = Some (Some c) /\ is_connected s = false /\
+    forall h,
+      match get_c s h with
+      | Some (CDone OOk) => True                       (* answered before the connection died *)
+      | Some (CDone (OCause c')) => c' = c
+      | Some (CDone OPlaceholder) => False
+      | Some CGone => False
+      | Some _ => get_c (run false s [LCallerDropped h; LReadErr h]) h = Some (CDone (OCause c))
+      | None => get_c (run false s [LNewCall h; LReadErr h]) h = Some (CDone (OCause c)) /\
+                get_c (run false s [LOnDisc h; LReadErr h]) h = Some (CDone (OCause c))
+      end.
+Proof.
+  intros tr s S R D E. destruct (reach_inv tr) as [C K]. fold s in C, K.
+  assert (F : front_closed s = true) by (apply (c_front s C); rewrite S; exact Logic.I).
+  destruct (closed_has_cause s C F) as [A|[A|A]]; try congruence.
+  destruct (reason s) as [c|] eqn:Rs; [|congruence]. exists c.
+  split; [reflexivity|]. split; [exact (proj2 (c_reason s C c Rs))|]. split; [unfold is_connected; rewrite F; reflexivity|].
+  intro h. destruct (get_c s h) as [x|] eqn:G.
+  - destruct x as [| | |[|c'|]|].
+    + eapply finish_pending; eauto.
+    + eapply finish_pending; eauto.
+    + eapply finish_pending; eauto.
+    + exact Logic.I.
+    + pose proof (k_cause s K h c' G). congruence.
+    + pose proof (k_ph s K h G). congruence.
+    + pose proof (k_gone s K h G). congruence.
+  - split; apply finish_new; auto.
+Qed.
+
+Local Open Scope N_scope.
+
+(* ---------- C09_progress ---------- *)
+Lemma push_pcs s r : sp (push s r) = sp s /\ rp (push s r) = rp s /\ wp (push s r) = wp s.
+Proof. unfold push. destruct (rx_closed s); cbn; tauto. Qed.
+
+Lemma mu_step old s l :
+  (mu (step old s l) <= mu s)%nat /\
+  (is_proto l = true -> enabled old s l = true -> (mu (step old s l) < mu s)%nat).
+Proof.
+  unfold step. destruct (enabled old s l) eqn:E; [|split; [lia | discriminate]].
+  destruct (pop_ctl s) as (P1&P2&P3&_).
+  destruct l; cbn [effect is_proto]; enab E; unfold mu, after_break; cbn;
+    repeat match goal with |- context [push ?s ?r] => destruct (push_pcs s r) as (X1&X2&X3); rewrite ?X1, ?X2, ?X3; clear X1 X2 X3 end;
+    rewrite ?P1, ?P2, ?P3;
+    repeat match goal with Q : sp _ = _ |- _ => rewrite Q | Q : rp _ = _ |- _ => rewrite Q | Q : wp _ = _ |- _ => rewrite Q
+                      | Q : slot _ = _ |- _ => rewrite Q end;
+    try (destruct old); cbn; try (split; [lia | intros; try discriminate; lia]).
+  all: repeat match goal with |- context [match ?r with Some _ => _ | None => _ end] => destruct r end; cbn; try split; intros; try lia.
+  all: destruct (front_closed s); cbn; lia.
+Qed.
+
+Lemma mu_zero s : mu s = 0%nat <-> all_exited s = true.
+Proof.
+  unfold mu, all_exited, sp_exited, rp_exited. destruct (sp s), (rp s), (wp s); cbn; split; intro; try lia; try discriminate; reflexivity.
+Qed.
+
+Lemma mu_bound s : (mu s <= 11)%nat.
+Proof. unfold mu. destruct (sp s), (rp s), (wp s); cbn; lia. Qed.
+
+Lemma next_proto_sound old slow s l : next_proto old slow s = Some l -> is_proto l = true /\ enabled old s l = true.
+Proof.
+  unfold next_proto.
+  repeat match goal with
+  | |- context [if enabled old s ?x then _ else _] => destruct (enabled old s x) eqn:?; [intro H; inversion H; subst; split; [reflexivity | assumption]|]
+  | |- context [if slow then _ else _] => destruct slow
+  end; discriminate.
+Qed.
+
+(* no deadlock: once the shutdown has started, some protocol step is enabled until all three tasks are gone
+   (the completion of the transport's close() counts as a protocol step: slow = false) *)
+Lemma next_proto_none s : cinv s -> started s = true -> next_proto false false s = None -> all_exited s = true.
+Proof.
+  intros [I1 I2 I3 I4 I5 I6 I7 I8 I9 I10 I11 I12 I13] St. unfold next_proto.
+  repeat match goal with
+  | |- context [if enabled false s ?x then _ else _] => destruct (enabled false s x) eqn:?; [discriminate|]
+  end. intros _.
+  unfold enabled, started, all_exited, sp_is_loop, rp_is_loop, sp_exited, rp_exited, can_push, is_none in *.
+  destruct (wp s) eqn:W; try discriminate.
+  - (* WWait *) destruct (slot s) eqn:SL; try discriminate. destruct (dropped s) eqn:D; try discriminate.
+    assert (RX : rx_closed s = false) by (destruct (rx_closed s); [destruct I4 as [A _]; discriminate (A eq_refl) | reflexivity]).
+    rewrite RX in *. cbn in *.
+    destruct (sp s) eqn:S; try discriminate; try contradiction;
+    try (exfalso; apply I13; [reflexivity | left; exact Logic.I | reflexivity]).
+    destruct (rp s) eqn:R; try discriminate;
+    try (exfalso; apply I13; [reflexivity | right; exact Logic.I | reflexivity]).
+  - (* WExited *) assert (RX : rx_closed s = true) by (apply I4; reflexivity). rewrite RX in *.
+    destruct (sp s); cbn in *; rewrite ?orb_true_r in *; try discriminate; try contradiction.
+    destruct (rp s); cbn in *; rewrite ?orb_true_r in *; try discriminate. reflexivity.
+Qed.
+
+Lemma lt_started s : (mu s < 11)%nat -> started s = true.
+Proof.
+  unfold mu, started, sp_is_loop, rp_is_loop. destruct (sp s), (rp s), (wp s); cbn; intros; try reflexivity; lia.
+Qed.
+
+Lemma drive_exits fuel : forall s, cinv s -> started s = true -> (mu s <= fuel)%nat ->
+  all_exited (drive false false fuel s) = true.
+Proof.
+  induction fuel as [|f IH]; intros s C St Le.
+  - cbn. apply mu_zero. lia.
+  - cbn. destruct (next_proto false false s) as [l|] eqn:N.
+    + destruct (next_proto_sound _ _ _ _ N) as [P E].
+      destruct (mu_step false s l) as [_ Lt]. specialize (Lt P E). pose proof (mu_bound s).
+      apply IH; [apply cinv_step; exact C | apply lt_started; lia | lia].
+    + apply next_proto_none; assumption.
+Qed.
+
+Theorem progress : forall tr, let s := run false init tr in
+  started s = true ->
+  (mu s <= 11)%nat /\
+  (forall l, (mu (step false s l) <= mu s)%nat) /\
+  (forall l, is_proto l = true -> enabled false s l = true -> (mu (step false s l) < mu s)%nat) /\
+  (mu s = 0%nat <-> all_exited s = true) /\
+  ((mu s > 0)%nat -> exists l, is_proto l = true /\ enabled false s l = true) /\
+  all_exited (drive false false (mu s) s) = true.
+Proof.
+  intros tr s St. destruct (reach_inv tr) as [C _]. fold s in C.
+  split; [apply mu_bound|]. split; [intro l; apply (mu_step false s l)|].
+  split; [intro l; apply (mu_step false s l)|]. split; [apply mu_zero|].
+  split; [|apply drive_exits; auto].
+  intro Pos. destruct (next_proto false false s) as [l|] eqn:N.
+  - exists l. eapply next_proto_sound; exact N.
+  - apply (next_proto_none s C St) in N. apply mu_zero in N. lia.
+Qed.
+
+(* ---------- while the transport's close() has not completed, calls registered in the manager stay pending ---------- *)
+Lemma blocked_step s l h : l <> LSTransportClosed -> l <> LClientDrop ->
+  sp s = SClosing -> rp s <> RLoop -> get_c s h = Some CInMgr ->
+  let s' := step false s l in sp s' = SClosing /\ rp s' <> RLoop /\ get_c s' h = Some CInMgr.
+Proof.
+  intros N1 N2 S R G. unfold step. destruct (enabled false s l) eqn:E; [|auto].
+  destruct (pop_ctl s) as (P1&P2&P3&_).
+  assert (GP : forall r, get_c (push s r) h = get_c s h) by (intro r; unfold push; destruct (rx_closed s); reflexivity).
+  assert (NE : forall k x, get_c s k <> Some CInMgr -> get_c (set_c s k x) h = Some CInMgr).
+  { intros k x D. rewrite get_set. destruct (N.eqb h k) eqn:X; [apply N.eqb_eq in X; subst; congruence | exact G]. }
+  destruct l; try congruence; cbn [effect after_break];
+    unfold enabled, sp_is_loop, rp_is_loop, sp_exited, rp_exited in E; rewrite ?S in E; try discriminate E.
+  all: try solve [destruct (rp s); try congruence; discriminate E].
+  all: try solve [destruct (get_c s h0) as [[]|]; cbn in E; discriminate E].
+  all: try solve [destruct (get_c s h0) as [[]|] eqn:G0; try discriminate E;
+                  cbn [sp rp set_c set_callers]; split; [exact S | split; [exact R | apply NE; congruence]]].
+  all: try solve [apply andb_prop in E as [E1 E2]; destruct (get_c s h0) as [[]|] eqn:G0; try discriminate E2; try discriminate E1;
+                  try destruct (front_closed s);
+                  cbn [sp rp set_c set_callers set_fqueue]; (split; [exact S | split; [exact R |]]);
+                  first [apply NE; congruence
+                        | rewrite get_set; destruct (N.eqb h h0) eqn:X; [apply N.eqb_eq in X; subst; congruence | exact G]]].
+  all: unfold push; repeat match goal with |- context [match ?x with _ => _ end] => destruct x | |- context [if ?b then _ else _] => destruct b end;
+       try discriminate E; unfold get_c in *; cbn; try (split; [assumption | split; [first [assumption | discriminate] | assumption]]).
+Qed.
+
+Lemma blocked_run tr : forall s h, ~ In LSTransportClosed tr -> ~ In LClientDrop tr ->
+  sp s = SClosing -> rp s <> RLoop -> get_c s h = Some CInMgr ->
+  let s' := run false s tr in sp s' = SClosing /\ get_c s' h = Some CInMgr.
+Proof.
+  induction tr as [|l tr IH]; intros s h N1 N2 S R G; [split; assumption|].
+  cbn. destruct (blocked_step s l h) as (S'&R'&G'); auto.
+  - intro X; apply N1; left; auto.
+  - intro X; apply N2; left; auto.
+  - apply IH; auto; intro X; [apply N1 | apply N2]; right; exact X.
+Qed.
+
+(* non-vacuity: such a state is reachable with the cause already recorded and the front channel closed *)
+Definition tr_blocked : list label :=
+  [LNewCall 1; LSendOk; LRecvFault; LRReport; LWRecv; LWStore; LWExit; LRExit; LSNotice; LSReport; LSClosedSeen; LSCloseFront].
+
+Lemma blocked_witness : let s := run false init tr_blocked in
+  sp s = SClosing /\ rp s = RExited /\ get_c s 1 = Some CInMgr /\ reason s = Some CRecv /\ front_closed s = true.
+Proof. vm_compute. repeat split. Qed.
+
+(* ---------- the OLD send_task epilogue: close the front channel, close the transport, then report ---------- *)
+Definition tr_old : list label := [LNewCall 1; LSendFault; LSCloseFront; LNewCall 2; LReadErr 2].
+
+Lemma old_order_placeholder :
+  get_c (run true init tr_old) 2 = Some (CDone OPlaceholder) /\ h_recvend (run true init tr_old) = false /\
+  dropped (run true init tr_old) = false /\
+  front_closed (run true init [LNewCall 1; LSendFault; LSCloseFront]) = true /\
+  reason (run true init [LNewCall 1; LSendFault; LSCloseFront]) = None.
+Proof. vm_compute. repeat split. Qed.
+
+(* the same schedule on the current code: the late call is merely queued, and fails with the cause *)
+Lemma new_order_same_schedule :
+  get_c (run false init tr_old) 2 = Some CQueued /\
+  get_c (run false init (tr_old ++ [LSReport; LWRecv; LWStore; LWExit; LSClosedSeen; LSCloseFront; LRNotice; LRReport; LRExit;
+                                    LSTransportClosed; LCallerDropped 2; LReadErr 2])) 2 = Some (CDone (OCause CSend)).
+Proof. vm_compute. split; reflexivity. Qed.
+
+(* ---------- the dead clean-exit branch of read_task would yield the placeholder ---------- *)
+Definition tr_recvend : list label :=
+  [LRecvEnd; LRReport; LWRecv; LWStore; LWExit; LSNotice; LSReport; LSClosedSeen; LSCloseFront; LNewCall 1; LReadErr 1].
+
+Lemma recv_end_placeholder : get_c (run false init tr_recvend) 1 = Some (CDone OPlaceholder).
+Proof. vm_compute. reflexivity. Qed.
+
+
+(* ================= arithmetic of the frame handler: no overflow, no out-of-bounds ================= *)
+Definition id_ok (i : id) : Prop := match i with IdNum n => n <= u64_max | _ => True end.
+Definition elem_ok (x : inmsg) : Prop := match x with IResp r => id_ok (rs_id r) | _ => True end.
+
+Lemma parse_text_wf t v : parse_text t = Some v -> wf v = true.
+Proof.
+  unfold parse_text. destruct (parse_value _ _ t) as [[v' r]|] eqn:E; [|discriminate].
+  destruct (skip_ws r); [|discriminate]. intro H; inversion H; subst.
+  apply parse_value_wf in E; [tauto | unfold depth_limit; lia].
+Qed.
+
+Lemma parse_id_ok t i : parse_id t = Some i -> id_ok i.
+Proof.
+  unfold parse_id. destruct (parse_text t) as [v|] eqn:E; [|discriminate].
+  apply parse_text_wf in E. destruct v as [| |[n|n|l]| | |]; cbn; try discriminate; intro H; inversion H; subst; cbn; auto.
+  cbn in E. apply N.leb_le. exact E.
+Qed.
+
+Lemma parse_response_members_ok m r : parse_response_members m = Some r -> id_ok (rs_id r).
+Proof.
+  unfold parse_response_members.
+  destruct (field_of k_id m) as [|v|]; try discriminate.
+  destruct (parse_id v) as [i|] eqn:E; [|discriminate]. apply parse_id_ok in E.
+  repeat match goal with
+  | |- match ?x with _ => _ end = Some _ -> _ => destruct x; try discriminate
+  end; intro H; inversion H; subst; exact E.
+Qed.
+
+Lemma classify_elem_ok t : elem_ok (classify_elem t).
+Proof.
+  unfold classify_elem. destruct (parse_response t) as [r|] eqn:E.
+  - cbn. unfold parse_response in E. destruct (object_members t); [|discriminate].
+    eapply parse_response_members_ok; exact E.
+  - repeat match goal with |- elem_ok match ?x with _ => _ end => destruct x as [[[? ?] ?]|] || destruct x as [[? ?]|] end; exact I.
+Qed.
+
+Lemma classify_frame_ok raw ms : classify_frame raw = FArray ms -> Forall elem_ok ms.
+Proof.
+  unfold classify_frame. destruct (drop_while is_ascii_ws raw) as [|c t]; [discriminate|].
+  destruct (beqb c x7b); [discriminate|]. destruct (beqb c x5b); [|discriminate].
+  destruct (raw_array raw) as [ts|]; [|discriminate]. intro H; inversion H; subst.
+  apply Forall_forall. intros x Hx. apply in_map_iff in Hx as (t' & <- & _). apply classify_elem_ok.
+Qed.
+
+Lemma id_as_number_ok i n : id_ok i -> id_as_number i = Some n -> n <= u64_max.
+Proof.
+  destruct i as [|m|s]; cbn; [discriminate | intros H E; inversion E; subst; exact H |].
+  intros _. destruct (match s with [] => s | c :: t => if beqb c x2b then t else s end) as [|c t]; [discriminate|].
+  destruct (all_digits (c :: t)); [|discriminate].
+  destruct (digits_val (c :: t) <=? u64_max) eqn:E; [|discriminate].
+  intro H; inversion H; subst. apply N.leb_le. exact E.
+Qed.
+
+Definition rng_ok (r : option (N * N)) : Prop :=
+  match r with Some (lo, hi) => lo <= hi /\ hi <= u64_max | None => True end.
+
+Lemma array_loop_rng ms : forall s acc rng got s' rs rng' got',
+  Forall elem_ok ms -> rng_ok rng ->
+  array_loop s ms acc rng got = inl (s', rs, rng', got') -> rng_ok rng'.
+Proof.
+  induction ms as [|x ms IH]; intros s acc rng got s' rs rng' got' F R E.
+  - cbn in E. inversion E; subst. exact R.
+  - inversion F as [|? ? Fx Fms]; subst. cbn [array_loop] in E. destruct x.
+    + destruct (id_as_number (rs_id r)) as [n|] eqn:En; [|discriminate].
+      apply (id_as_number_ok _ _ Fx) in En.
+      eapply IH; [exact Fms | | exact E].
+      destruct rng as [[lo hi]|]; cbn in *; [|split; [apply N.le_refl | exact En]].
+      destruct R as [R1 R2]. destruct (n <? lo) eqn:A, (hi <? n) eqn:B;
+        try apply N.ltb_lt in A; try apply N.ltb_lt in B; try apply N.ltb_ge in A; try apply N.ltb_ge in B; lia.
+    + eapply IH; eauto.
+    + eapply IH; eauto.
+    + eapply IH; eauto.
+    + discriminate.
+Qed.
+
+Lemma frame_range_ok s raw lo hi : frame_range s (classify_frame raw) = Some (lo, hi) -> lo <= hi /\ hi <= u64_max.
+Proof.
+  unfold frame_range. destruct (classify_frame raw) as [|ms|] eqn:C; try discriminate.
+  apply classify_frame_ok in C.
+  destruct (array_loop s ms [] None false) as [[[[s' rs] [r|]] g]|] eqn:E; try discriminate.
+  intro H; inversion H; subst. exact (array_loop_rng ms s [] None false _ _ _ _ C I E).
+Qed.
+
+(* handle_back computes `range.end + 1` exactly where range_end_now does *)
+Lemma handle_back_range s fr lo hi : frame_range s fr = Some (lo, hi) ->
+  exists s' rs, handle_back s fr =
+    if hi =? u64_max then RFatal s' [] FNotPending else batch_response s' rs lo (hi + 1).
+Proof.
+  unfold frame_range, handle_back. destruct fr as [|ms|]; try discriminate.
+  destruct (array_loop s ms [] None false) as [[[[s' rs] [[lo' hi']|]] g]|]; try discriminate.
+  intro H; inversion H; subst. exists s', rs. reflexivity.
+Qed.
+
+Theorem range_end_no_overflow : forall s raw e,
+  range_end_now s (classify_frame raw) = Some e -> e <= u64_max.
+Proof.
+  intros s raw e. unfold range_end_now.
+  destruct (frame_range s (classify_frame raw)) as [[lo hi]|] eqn:E; [|discriminate].
+  apply frame_range_ok in E as [_ E]. destruct (hi =? u64_max) eqn:X; [discriminate|].
+  apply N.eqb_neq in X. intro H; inversion H; subst. unfold u64_max in *. lia.
+Qed.
+
+(* the slots of a batch result: `hi - lo` placeholders, each reply written at `id - lo` or ignored *)
+Lemma set_nth_length {A} n (x : A) l : length (set_nth n x l) = length l.
+Proof. revert n. induction l as [|y l IH]; intros [|n]; cbn; auto. Qed.
+
+Theorem batch_slots : forall s rs lo hi s' o h filled,
+  batch_response s rs lo hi = ROk s' o -> In (OComplete h (CBatch filled)) o -> length filled = N.to_nat (hi - lo).
+Proof.
+  intros s rs lo hi s' o h filled. unfold batch_response.
+  destruct (alookup range_eqb (lo, hi) (batches (m s))) as [w|]; [|discriminate].
+  intro H; inversion H; subst; clear H. unfold complete. destruct (alive s w); [|intros []].
+  intros [H|[]]. inversion H; subst; clear H.
+  assert (G : forall (l : list response) acc, length (fold_left (fun acc r =>
+               match id_as_number (rs_id r) with Some n => set_nth (N.to_nat (n - lo)) r acc | None => acc end) l acc) = length acc).
+  { induction l as [|r l IH]; intro acc; cbn; [reflexivity|]. rewrite IH.
+    destruct (id_as_number (rs_id r)); [apply set_nth_length | reflexivity]. }
+  rewrite G. apply repeat_length.
+Qed.
+
+(* the OLD code: `range.end += 1` unconditionally *)
+
+Lemma old_overflow : range_end_old (ClientMgr.init false 4 4 false) (classify_frame overflow_frame) = Some 18446744073709551616
+  /\ ~ (18446744073709551616 <= u64_max)
+  /\ range_end_now (ClientMgr.init false 4 4 false) (classify_frame overflow_frame) = None
+  /\ exists s', handle_back (ClientMgr.init false 4 4 false) (classify_frame overflow_frame) = RFatal s' [] FNotPending.
+Proof.
+  split; [vm_compute; reflexivity|]. split; [unfold u64_max; lia|]. split; [vm_compute; reflexivity|].
+  eexists. vm_compute. reflexivity.
+Qed.
+
+(* ================= statements used by Props/C09.v ================= *)
+Lemma pending_blocked_refuted :
+  exists tr h, let s := run false init tr in
+    reason s = Some CRecv /\ front_closed s = true /\ rp s = RExited /\ get_c s h = Some CInMgr /\
+    forall tr', ~ In LSTransportClosed tr' -> ~ In LClientDrop tr' -> get_c (run false s tr') h = Some CInMgr.
+Proof.
+  exists tr_blocked, 1. destruct blocked_witness as (S & R & G & Rs & F). cbv zeta.
+  repeat split; try assumption.
+  intros tr' N1 N2. apply (blocked_run tr' _ 1 N1 N2 S); [rewrite R; discriminate | exact G].
+Qed.
+
+Lemma old_order_refuted :
+  exists tr h, let s := run true init tr in
+    get_c s h = Some (CDone OPlaceholder) /\ h_recvend s = false /\ dropped s = false.
+Proof. exists tr_old, 2. destruct old_order_placeholder as (A & B & C & _). cbv zeta. auto. Qed.
+
+Lemma recv_end_refuted : exists tr h, get_c (run false init tr) h = Some (CDone OPlaceholder).
+Proof. exists tr_recvend, 1. exact recv_end_placeholder. Qed.
+
+Lemma old_overflow_refuted :
+  exists s raw e, range_end_old s (classify_frame raw) = Some e /\ ~ e <= u64_max /\
+                  range_end_now s (classify_frame raw) = None.
+Proof.
+  exists (ClientMgr.init false 4 4 false), overflow_frame, 18446744073709551616.
+  destruct old_overflow as (A & B & C & _). auto.
+Qed.
+
+Lemma fault_run_example :
+  let s := run false init (tr_blocked ++ [LSTransportClosed; LCallerDropped 1; LReadErr 1; LOnDisc 2; LReadErr 2]) in
+  all_exited s = true /\ get_c s 1 = Some (CDone (OCause CRecv)) /\ get_c s 2 = Some (CDone (OCause CRecv)) /\
+  is_connected s = false /\ started (run false init [LRecvFault]) = true /\ mu (run false init [LRecvFault]) = 10%nat.
+Proof. vm_compute. repeat split. Qed.
